@@ -261,9 +261,13 @@ func (s *snapper) walk(v reflect.Value, path string, depth int) {
 		s.putU(s.sub(path, "#len"), "len", uint64(l), false, "")
 		s.putU(s.sub(path, "#cap"), "cap", uint64(c), false, "")
 		s.putU(s.sub(path, "#data"), "data", uint64(v.Pointer()), true, "")
-		if c > l && s.full {
-			s.spare = append(s.spare, map[string]interface{}{"type": "spare", "path": path, "len": l, "cap": c,
-				"elem": v.Type().Elem().String(), "_cell": path})
+		if s.full {
+			rec := map[string]interface{}{"type": "slice", "path": path, "len": l, "cap": c,
+				"elem": v.Type().Elem().String(), "_cell": path}
+			if c > l {
+				rec["type"] = "spare"
+			}
+			s.spare = append(s.spare, rec)
 		}
 		full := v
 		if c > l {
@@ -545,13 +549,23 @@ func c15snap(args []string) int {
 		cur := takeSnapshot(true)
 		snaps++
 		var paths []string
+		// cells of objects that only became (un)reachable are not changes of a pre-existing cell: the
+		// pointer cell that now leads to them is the change
+		newObj := func(cell string, other *snapper) bool {
+			i := strings.Index(cell, "|")
+			if !strings.HasPrefix(cell, "@") || i < 0 {
+				return false
+			}
+			_, known := other.objPath[cell[:i]]
+			return !known
+		}
 		for p, v := range cur.cells {
-			if ov, ok := prev.cells[p]; !ok || ov != v {
+			if ov, ok := prev.cells[p]; (!ok && !newObj(p, prev)) || (ok && ov != v) {
 				paths = append(paths, p)
 			}
 		}
 		for p := range prev.cells {
-			if _, ok := cur.cells[p]; !ok {
+			if _, ok := cur.cells[p]; !ok && !newObj(p, cur) {
 				paths = append(paths, p)
 			}
 		}
@@ -578,9 +592,19 @@ func c15snap(args []string) int {
 			prev.h, prev.ncells = cur.h, cur.ncells
 		}
 	}
-	emitJSON(map[string]interface{}{"type": "totals", "cells": base.ncells, "slices": base.nslices, "spare_slices": len(base.spare),
+	emitJSON(map[string]interface{}{"type": "totals", "cells": base.ncells, "slices": base.nslices, "spare_slices": countSpare(base.spare),
 		"workloads": len(ws), "snapshots": snaps, "changes": nchanges, "regimes": len(regs), "addons": len(addonKeys)})
 	return 0
+}
+
+func countSpare(l []map[string]interface{}) int {
+	n := 0
+	for _, r := range l {
+		if r["type"] == "spare" {
+			n++
+		}
+	}
+	return n
 }
 
 func init() {
